@@ -17,7 +17,7 @@
 From Coq Require Import List.
 From Algo.Grammar Require Import CFG.
 From Algo.C08 Require Import Model Spec ProofsBase ProofsLang1 ProofsLang2 ProofsLang3 ProofsLang4 ProofsLF ProofsELR Names NamesProofs.
-From Algo.C09 Require Import Model Concrete Proofs ProofsCNF ProofsVerify ProofsCycles ProofsELR ProofsCheckers ProofsLRSound SliceHeap ProofsFrame.
+From Algo.C09 Require Import Model Concrete Proofs ProofsCNF ProofsVerify ProofsCycles ProofsELR ProofsCheckers ProofsLRSound SliceHeap ProofsFrame ProofsVerify2.
 Import ListNotations.
 
 Section C09.
@@ -126,6 +126,30 @@ Section C09.
   Proof.
     intros G G' HG H. apply (verify_spec teqb neqb teqb_spec neqb_spec).
     exact (unreachable_valid teqb neqb teqb_spec neqb_spec G G' HG H).
+  Qed.
+
+  (** LeftFactor: every valid grammar gives a valid grammar (no restriction needed) *)
+  Theorem C09_left_factor_verify : forall G G' : gram, valid G ->
+    left_factor teqb neqb fresh G = Ok G' -> verify teqb neqb G' = true.
+  Proof.
+    intros G G' HG H. apply (verify_spec teqb neqb teqb_spec neqb_spec).
+    exact (left_factor_valid teqb neqb fresh teqb_spec neqb_spec fresh_spec G G' HG H).
+  Qed.
+
+  (** EliminateLeftRecursion and ChomskyNormalForm on the D09c-free domain *)
+  Theorem C09_left_recursion_verify : forall (order : gram -> list N) (G G' : gram), valid G -> all_yield G ->
+    (forall G1, NoDup (order G1) /\ incl (order G1) (nonterms G1)) ->
+    left_recursion_elim teqb neqb fresh order G = Ok G' -> verify teqb neqb G' = true.
+  Proof.
+    intros order G G' HG Hy Hord H. apply (verify_spec teqb neqb teqb_spec neqb_spec).
+    exact (left_recursion_elim_valid teqb neqb fresh teqb_spec neqb_spec fresh_spec order G G' (valid_wf G HG) Hy Hord H).
+  Qed.
+
+  Theorem C09_chomsky_verify : forall G G' : gram, valid G -> all_yield G ->
+    chomsky teqb neqb t2n fresh G = Ok G' -> verify teqb neqb G' = true.
+  Proof.
+    intros G G' HG Hy H. apply (verify_spec teqb neqb teqb_spec neqb_spec).
+    exact (chomsky_valid teqb neqb t2n fresh teqb_spec neqb_spec fresh_spec G G' (valid_wf G HG) Hy H).
   Qed.
 
   Theorem C09_cycles_verify : forall G G' : gram, valid G -> all_yield G ->
@@ -323,6 +347,9 @@ Print Assumptions C09_del_verify.
 Print Assumptions C09_unit_verify.
 Print Assumptions C09_unreachable_verify.
 Print Assumptions C09_cycles_verify.
+Print Assumptions C09_left_factor_verify.
+Print Assumptions C09_left_recursion_verify.
+Print Assumptions C09_chomsky_verify.
 Print Assumptions C09_cycles_post.
 Print Assumptions C09_left_factored_correct.
 Print Assumptions C09_left_recursion_post.
